@@ -359,8 +359,14 @@ class FortranAST:
     def check_file(self, obj_tree):
         errors = []
         tmp_list = self.scope_list[:]  # shallow copy
-        if self.none_scope is not None:
-            tmp_list += [self.none_scope]
+        top_scope = self.none_scope
+        if top_scope is not None and top_scope.file_ast is not self:
+            # The top-level entities of this file were spliced into a scope of
+            # the file that INCLUDEs it: that scope is checked with its own
+            # file, here only what this file itself holds
+            top_scope = self.inc_scope
+        if top_scope is not None:
+            tmp_list += [top_scope]
         for error in self.end_errors:
             if error[0] >= 0:
                 message = f"Unexpected end of scope at line {error[0]}"
